@@ -22,10 +22,11 @@ type c02cfg struct {
 	redeploys   int
 	changeHosts bool
 	other       bool // a second, unrelated service exists
+	slow        bool // two in-flight requests of different length and slow late arrivals
 }
 
 func (c c02cfg) String() string {
-	return fmt.Sprintf("old=%d new=%d clients=%dx%d inflight=%v redeploys=%d changeHosts=%v other=%v", c.nOld, c.nNew, c.clients, c.perClient, c.inflight, c.redeploys, c.changeHosts, c.other)
+	return fmt.Sprintf("old=%d new=%d clients=%dx%d inflight=%v redeploys=%d changeHosts=%v other=%v slow=%v", c.nOld, c.nNew, c.clients, c.perClient, c.inflight, c.redeploys, c.changeHosts, c.other, c.slow)
 }
 
 func tnames(prefix string, n int) []string {
@@ -76,6 +77,17 @@ func c02Scenario(c c02cfg) *Scenario {
 			})
 			time.Sleep(100 * time.Millisecond) // it is now waiting for its target
 		}
+		if c.slow {
+			for i, d := range []string{"delay=600ms", "delay=1600ms"} {
+				wg.Add(1)
+				id, plan := fmt.Sprintf("inflight%d", i), d
+				vsched.GoTagged("client", func() {
+					defer wg.Done()
+					w.Do(ReqSpec{ID: id, Host: "a.example.com", Path: "/", Plan: plan})
+				})
+			}
+			time.Sleep(100 * time.Millisecond)
+		}
 		w.S.SetWindow(true)
 		wg.Add(1)
 		vsched.GoTagged("cmd", func() {
@@ -95,7 +107,13 @@ func c02Scenario(c c02cfg) *Scenario {
 			vsched.GoTagged("client", func() {
 				defer wg.Done()
 				for j := 0; j < c.perClient; j++ {
-					w.Do(ReqSpec{ID: fmt.Sprintf("c%d.%d", k, j), Host: "a.example.com", Path: "/"})
+					spec := ReqSpec{ID: fmt.Sprintf("c%d.%d", k, j), Host: "a.example.com", Path: "/"}
+					if c.slow {
+						// arrive while the old targets are still draining and take long enough to outlive the drain
+						time.Sleep(700 * time.Millisecond)
+						spec.Plan = "delay=1300ms"
+					}
+					w.Do(spec)
 				}
 			})
 		}
@@ -173,6 +191,8 @@ func c02Configs(tier string) []c02cfg {
 		cfgs = append(cfgs, c02cfg{nOld: 1, nNew: 1, clients: 1, perClient: 1, redeploys: 1, changeHosts: true})
 		cfgs = append(cfgs, c02cfg{nOld: 1, nNew: 1, clients: 1, perClient: 2, redeploys: 2})
 		cfgs = append(cfgs, c02cfg{nOld: 1, nNew: 1, clients: 1, perClient: 1, redeploys: 1, other: true})
+		cfgs = append(cfgs, c02cfg{nOld: 1, nNew: 1, clients: 1, perClient: 1, redeploys: 1, slow: true})
+		cfgs = append(cfgs, c02cfg{nOld: 1, nNew: 1, clients: 2, perClient: 1, redeploys: 1, slow: true})
 		return cfgs
 	}
 	for _, sh := range [][2]int{{1, 1}, {2, 1}, {1, 2}, {2, 2}} {
@@ -180,6 +200,11 @@ func c02Configs(tier string) []c02cfg {
 			for _, inf := range []bool{false, true} {
 				cfgs = append(cfgs, c02cfg{nOld: sh[0], nNew: sh[1], clients: cl[0], perClient: cl[1], redeploys: 1, inflight: inf})
 			}
+		}
+	}
+	for _, sh := range [][2]int{{1, 1}, {2, 1}, {1, 2}} {
+		for _, cl := range [][2]int{{1, 1}, {1, 2}, {2, 1}} {
+			cfgs = append(cfgs, c02cfg{nOld: sh[0], nNew: sh[1], clients: cl[0], perClient: cl[1], redeploys: 1, slow: true})
 		}
 	}
 	for _, ch := range []bool{false, true} {
